@@ -8,8 +8,8 @@ import (
 
 // set staked validator
 func (k Keeper) SetStakedValidator(ctx sdk.Ctx, validator types.Validator) {
-	if validator.Jailed {
-		return // jailed validators are not kept in the power index
+	if validator.Jailed || !validator.IsStaked() {
+		return // only staked, unjailed validators are kept in the power index
 	}
 	store := ctx.KVStore(k.storeKey)
 	store.Set(types.KeyForValidatorInStakingSet(validator), validator.Address)
